@@ -119,9 +119,13 @@ class Cov(np.ndarray):
         # Second we compute the matrix m2 which represents the
         # rotation from the parent frame to the target frame
 
+        # The local orbital frames are defined by the position and velocity
+        # expressed in the frame the covariance is attached to
+        orb = self.orb.copy(frame=self._orb_frame)
+
         # Handle previous frame to parent frame conversion
         if self.frame in ("TNW", "QSW"):
-            m1 = to_local(self.frame, self.orb).T
+            m1 = to_local(self.frame, orb).T
         elif self.frame != self._orb_frame:
             m1 = self.frame.orientation.convert_to(
                 self.orb.date, self._orb_frame.orientation
@@ -131,7 +135,7 @@ class Cov(np.ndarray):
 
         # handle parent frame to target frame conversion
         if frame in ("TNW", "QSW"):
-            m2 = to_local(frame, self.orb)
+            m2 = to_local(frame, orb)
         elif self._orb_frame != frame:
             m2 = self._orb_frame.orientation.convert_to(
                 self.orb.date, frame.orientation
